@@ -4,7 +4,7 @@ from evalutil import *
 
 ID = "C04"
 LEVEL = "proof"
-MODULES = ["H3Proofs.Props.C04", "H3Proofs.Props.C04Children", "H3Proofs.Props.C04Valid", "H3Proofs.Props.C04Center", "H3Proofs.Props.C04Order", "H3Proofs.Props.C04Iter"]
+MODULES = ["H3Proofs.Props.C04", "H3Proofs.Props.C04Children", "H3Proofs.Props.C04Valid", "H3Proofs.Props.C04Center", "H3Proofs.Props.C04Order", "H3Proofs.Props.C04Iter", "H3Proofs.Props.C04Gen"]
 THEOREMS = "auto"
 ASSUMPTIONS = ["hand-written model of cellToParent/cellToChildrenSize/cellToCenterChild/iterInitParent/"
                "iterStepChild tied to the code by the correspondence check (exact list equality, order included)"]
